@@ -82,6 +82,8 @@ def type_infer(t, *, forbid_internal=True):
 
         # Type constructors, recursively unify each argument
         if T1.is_tconst() and T2.is_tconst() and T1.name == T2.name:
+            if len(T1.args) != len(T2.args):
+                raise TypeInferenceException("Unable to unify " + str(T1) + " with " + str(T2))
             for i in range(len(T1.args)):
                 unify(T1.args[i], T2.args[i])
 
